@@ -22,8 +22,8 @@ THEOREMS = {
         "C15_quantile_zero", "C15_quantile_one", "C15_quantile_half", "C15_iqr_quartiles",
         "C15_count_ignores_nan", "C15_nan_propagates", "C15_change_endpoints", "C15_get_names", "C15_get_quantile",
         "C15_axis", "C15_axis_rank", "C15_axis_shape",
-        "C15_window_partial", "C15_window_series", "C15_window_long", "C15_window_same_for_all_fields",
-        "C15_window_arr", "C15_window_unsorted_counterexample", "C15_fields_partial", "C15_applied_before_cut"]],
+        "C15_window", "C15_window_series", "C15_window_long", "C15_window_same_for_all_fields",
+        "C15_window_arr", "C15_fields_partial", "C15_applied_before_cut"]],
 }
 TRUSTED_BASE = [
     "Lean 4.33 kernel; axioms propext, Classical.choice, Quot.sound only",
@@ -40,13 +40,14 @@ TRUSTED_BASE = [
 ]
 ASSUMPTIONS = [
     "data values are finite or NaN (verif treats +-inf as missing before scoring)",
-    "window length h > 0 (the driver rejects -T <= 0); coordinates strictly ascending for C15_window "
-    "(text inputs and Data always deliver them so; NetCDF inputs may not: known finding window-unsorted)",
+    "window length h > 0 for the check (the driver rejects -T <= 0); C15_window holds for every coordinate order "
+    "(text inputs and Data deliver ascending coordinates, NetCDF inputs may not)",
     "quantile-from-ensemble fields are excluded from C15_fields_partial (known finding tagg-quantile-ignored)",
 ]
 RULE = ("agg.vec: every vector of length <= 3 over {-1,0,1/8,1,nan} plus seeded vectors of length 0..12 on a 1/8 grid in "
         "[-4,4] with ties and NaNs x all 14 aggregators and quantile levels {0,.1,.25,.5,.75,.9,1}; agg.axis: arrays of rank "
-        "1..4 (extents 0..4), every axis; agg.window: irregular strictly ascending lead-time / time grids, h from below the "
+        "1..4 (extents 0..4), every axis; agg.window: irregular strictly ascending lead-time / time grids (agg.window.unsorted: "
+        "shuffled, reversed, repeated coordinates), h from below the "
         "smallest gap to beyond the whole series, 1-D series and 3-D/4-D arrays, through preaggregate_leadtime / "
         "preaggregate_time; agg.data: Data(dim_agg_*) on in-memory, text and NetCDF inputs for obs, fcst, members, "
         "threshold and quantile fields, with lead-time/time subsets; agg.cli: verif -m obs -T h -Tagg f -Tx axis -type csv on a text file; an op is non-trivial if its reply contains a finite number")
@@ -55,7 +56,7 @@ EXHAUSTIVE_NOTE = "vectors of length <= 3 over a 5-letter alphabet are enumerate
 LEVEL_TEXT = ("Lean theorems: each of the 15 aggregators, as modelled from aggregator.py, equals its textbook statistic on every "
               "NaN-free rational sample (quantile 0/1/half = min/max/median, iqr = Q3/4 - Q1/4, count ignores NaN, NaN propagates "
               "through all others); applying an aggregator along any axis of an array of any rank aggregates exactly the fibers; "
-              "for strictly ascending coordinates and h > 0 the pre-aggregated value at every position is the aggregate of the "
+              "for every coordinate order and every h the pre-aggregated value at every position is the aggregate of the "
               "trailing window (l-h, l], for every field that is pre-aggregated. The model is tied to the code by differential "
               "correspondence; an independent exact-arithmetic oracle judges the implementation on every op.")
 TECHNIQUE = "Lean 4 proof over a hand-written model; differential correspondence against the real code; exact-arithmetic oracle"
@@ -178,7 +179,7 @@ def gen_ops(tier, rng):
         for name in rng.sample(ALL, 4):
             yield "agg.window.arr", "preaggarr %s %s %s %s %s %s" % (
                 axis, name, xr(h), xvec(coords), ",".join(map(str, dims)), xvec(data))
-    # --- outside the proved domain: coordinates not strictly ascending (only the oracle speaks there)
+    # --- coordinates not strictly ascending (NetCDF input): shuffled, reversed, repeated
     for _ in range(25 if quick else 400):
         n = rng.choice([2, 3, 4, 5, 6])
         coords = _coords(rng, n, 1)
@@ -530,7 +531,7 @@ def spec_op(op):
     a = op.split(" ")
     if a[0] == "agg":
         return "spec_agg %s %s" % (a[1], a[2])
-    if a[0] == "preagg" and _is_asc(from_xvec(a[4])) and from_xr(a[3]) > 0 and len(from_xvec(a[4])) == len(from_xvec(a[5])):
+    if a[0] == "preagg" and from_xr(a[3]) > 0 and len(from_xvec(a[4])) == len(from_xvec(a[5])):
         return "spec_preagg %s %s %s %s %s" % (a[1], a[2], a[3], a[4], a[5])
     return None
 
@@ -771,12 +772,6 @@ def _judge_tdata(a, impl_out):
 def cmp(op, impl_out, model_out):
     a = op.split(" ")
     if model_out == "UNMODELLED" or a[0] == "tcli":
-        return True
-    # domain discipline: outside the hypotheses of the theorems (coordinates not strictly ascending) only the
-    # oracle speaks, so that a repaired defect does not raise an alarm because the model mirrored the old behaviour
-    if a[0] in ("preagg", "preaggarr") and not _is_asc(from_xvec(a[4])):
-        return True
-    if a[0] == "tdata" and not _is_asc(from_xvec(a[6] if a[2] == "leadtime" else a[5])):
         return True
     if impl_out.startswith("EXC") or model_out.startswith("EXC") or impl_out == "ERR" or model_out == "ERR":
         return impl_out.split(":")[0] == model_out
